@@ -30,8 +30,8 @@ func c05KV(nkeys, ntypes int) KeyValue {
 	}
 }
 
-// sameKV: same key and same typed value (what Set equality means)
-func sameKV(a, b KeyValue) bool {
+// c05SameKV: same key and same typed value (what Set equality means)
+func c05SameKV(a, b KeyValue) bool {
 	if a.Key != b.Key {
 		return false
 	}
@@ -56,8 +56,8 @@ func c05Model(in []KeyValue) []KeyValue {
 	return out
 }
 
-// sameItems: got holds exactly the items of want, in any order (keys are unique)
-func sameItems(got, want []KeyValue, label string) {
+// c05SameItems: got holds exactly the items of want, in any order (keys are unique)
+func c05SameItems(got, want []KeyValue, label string) {
 	vndAssert(len(got) == len(want), label)
 	if len(got) != len(want) {
 		return
@@ -87,13 +87,13 @@ func c05CheckSet(s *Set, m []KeyValue, tag string) {
 		vndAssert(sl[i].Value == m[i].Value, tag+"-last-value-wins")
 		g, ok := s.Get(i)
 		vndAssert(ok, tag+"-get-in-range")
-		vndAssert(sameKV(g, m[i]), tag+"-get-agrees")
+		vndAssert(c05SameKV(g, m[i]), tag+"-get-agrees")
 		v, ok := s.Value(m[i].Key)
 		vndAssert(ok, tag+"-value-lookup-finds-key")
 		vndAssert(v == m[i].Value, tag+"-value-lookup-agrees")
 		vndAssert(s.HasValue(m[i].Key), tag+"-hasvalue")
 		vndAssert(it.Next(), tag+"-iter-next")
-		vndAssert(sameKV(it.Attribute(), m[i]), tag+"-iter-agrees")
+		vndAssert(c05SameKV(it.Attribute(), m[i]), tag+"-iter-agrees")
 	}
 	vndAssert(!it.Next(), tag+"-iter-ends")
 	_, ok := s.Get(len(m))
@@ -133,7 +133,7 @@ func HarnessC05New() {
 		vndReach("filtered")
 	}
 	c05CheckSet(&s, keep, "new")
-	sameItems(dropped, drop, "filtered-out-items-returned")
+	c05SameItems(dropped, drop, "filtered-out-items-returned")
 	vndAssert(s.Equals(&s), "set-equals-itself")
 	e := s.Equivalent()
 	vndAssert(e == s.Equivalent(), "equivalent-is-stable")
@@ -175,7 +175,7 @@ func HarnessC05Eq() {
 	want := len(ma) == len(mb)
 	if want {
 		for i := range ma {
-			want = vndAnd(want, sameKV(ma[i], mb[i]))
+			want = vndAnd(want, c05SameKV(ma[i], mb[i]))
 		}
 	}
 	if len(ma) == len(mb) && len(ma) > 0 {
@@ -276,7 +276,7 @@ func HarnessC05Filter() {
 	}
 	c05CheckSet(&kept, wk, "filter-kept")
 	c05CheckSet(&s, m, "filter-receiver-unchanged")
-	sameItems(dropped, wd, "filter-dropped-part")
+	c05SameItems(dropped, wd, "filter-dropped-part")
 }
 
 // C05.merge: MergeIterator = sorted union, first set wins
@@ -313,7 +313,7 @@ func HarnessC05Merge() {
 	i := 0
 	for mi.Next() {
 		if i < len(want) {
-			vndAssert(sameKV(mi.Attribute(), want[i]), "merge-is-sorted-union-first-wins")
+			vndAssert(c05SameKV(mi.Attribute(), want[i]), "merge-is-sorted-union-first-wins")
 		}
 		i++
 	}
